@@ -662,3 +662,96 @@ def config_op_nodes(ctx, view: str, f: FuncInfo, ops: Set[str]) -> List[int]:
             if any(w.attr == CONFIG_ATTR and w.op in ops and w.base == "self" for w in attr_writes(t)):
                 out.extend(cfg_node_of(f, s.call))
     return out
+
+
+# ---------------------------------------------------------------------------
+# dotted-id prefix / suffix tests carry the separator (C01 / C10)
+# ---------------------------------------------------------------------------
+def dotted_id_tests(ctx, rid: str) -> None:
+    """State ids are dotted paths: 'x is under y' must be tested with the separator
+    (``x.id.startswith(y.id + '.')``), otherwise sibling keys sharing a prefix (``sync`` / ``sync_index``,
+    ``r1`` / ``r10``) are conflated.  Every startswith/endswith on a state id is inspected."""
+    c = ctx.c
+    n = 0
+    for f in ctx.p.funcs_in("base_interpreter", "interpreter", "sync_interpreter", "models", "helpers"):
+        for x in own_nodes(f.node):
+            if not (isinstance(x, ast.Call) and isinstance(x.func, ast.Attribute) and x.func.attr in ("startswith", "endswith") and x.args):
+                continue
+            recv = x.func.value
+            if not (isinstance(recv, ast.Attribute) and recv.attr == "id") and not (isinstance(recv, ast.Name) and recv.id in ("sid", "state_id")):
+                continue
+            arg = x.args[0]
+            if isinstance(arg, ast.Constant):
+                continue
+            n += 1
+            has_sep = False
+            if isinstance(arg, ast.JoinedStr):
+                first, last = arg.values[0], arg.values[-1]
+                has_sep = (x.func.attr == "startswith" and isinstance(last, ast.Constant) and str(last.value).endswith(".")) or \
+                          (x.func.attr == "endswith" and isinstance(first, ast.Constant) and str(first.value).startswith("."))
+            elif isinstance(arg, ast.BinOp) and isinstance(arg.op, ast.Add):
+                has_sep = (x.func.attr == "startswith" and const_str(arg.right) == ".") or (x.func.attr == "endswith" and const_str(arg.left) == ".")
+            elif isinstance(arg, ast.Name):
+                for a in assignments_to(f, arg.id):
+                    v = getattr(a, "value", None)
+                    if isinstance(v, ast.JoinedStr) and isinstance(v.values[-1], ast.Constant) and str(v.values[-1].value).endswith((".", "::")):
+                        has_sep = True
+            c.ob(rid, has_sep, f, f"id-{x.func.attr}-with-separator",
+                 "state-id prefix/suffix test includes the '.' separator" if has_sep else
+                 f"'{stmt_text(x)}' tests a dotted state id without the '.' separator: sibling states whose keys share a prefix "
+                 f"(e.g. 'sync' and 'sync_index') are treated as ancestor and descendant", x)
+    c.floor(rid, "prefix/suffix tests on state ids", n, 4)
+
+
+# ---------------------------------------------------------------------------
+# rollback re-arms exactly what the exit phase disarmed (C07.R4 / C08.R2)
+# ---------------------------------------------------------------------------
+def rollback_rearm(ctx, rid: str) -> None:
+    c = ctx.c
+    for v in VIEWS:
+        r = roles(ctx, v)
+        ex = r.executor
+        handlers = [h for t in own_nodes(ex.node) if isinstance(t, ast.Try) for h in t.handlers
+                    if any(isinstance(x, ast.Call) and isinstance(x.func, ast.Attribute) and x.func.attr == "_schedule_state_tasks" for s_ in h.body for x in ast.walk(s_))]
+        if not handlers:
+            c.ob(rid, False, ex, "rollback-rearm-set", f"{ex.short}: the rollback handler re-arms nothing: a rolled-back state never times out again", ex.node)
+            continue
+        h = handlers[0]
+        for call in [x for x in self_calls_in(ex, "_schedule_state_tasks") if in_handler(ex, x) is h]:
+            inside = []
+            for a, pol in guards_at(ex, call):
+                # atoms contributed inside the handler
+                if any(anc is h for anc in ancestors(ex, a)):
+                    inside.append((a, pol))
+            exit_set_membership = []
+            other = []
+            for a, pol in inside:
+                cp = compare_parts(a)
+                is_mem = False
+                if cp and isinstance(cp[1], ast.In) and pol:
+                    for asg in assignments_to(ex, norm(cp[2])):
+                        if "_compute_states_to_exit" in norm(getattr(asg, "value", asg)):
+                            is_mem = True
+                (exit_set_membership if is_mem else other).append((a, pol))
+            arg_ok = bool(call.args)
+            ok = bool(exit_set_membership) and not other
+            c.ob(rid, ok, ex, "rollback-rearm-set",
+                 "rollback re-arms the states of the transition's exit set, no more and no fewer" if ok else
+                 ("rollback re-arms under extra conditions " + str([norm(a)[:50] for a, _ in other]) + ": states whose timers/services the exit "
+                  "phase had already cancelled (cancellation precedes the exit actions) but that are still in the configuration are skipped, "
+                  "so a rolled-back state never times out again" if exit_set_membership else
+                  "rollback does not re-arm by membership in the transition's exit set: the re-armed set differs from the set the exit phase disarmed"), call)
+        # the exit phase must have disarmed *all* of the exit set before anything in it can fail; otherwise
+        # re-arming the whole exit set arms the not-yet-cancelled states a second time
+        xt = r.exit
+        g = cfg_of(xt.node)
+        cancel_calls = self_calls_in(xt, "_cancel_state_tasks")
+        act_calls = [x for x in self_calls_in(xt, "_execute_actions")]
+        cl = [l for cc in cancel_calls for l in enclosing_loops(xt, cc) if isinstance(l, ast.For)]
+        al = [l for ac in act_calls for l in enclosing_loops(xt, ac) if isinstance(l, ast.For)]
+        upfront = bool(cl) and bool(al) and cl[0] is not al[0]
+        c.ob(rid, upfront, xt, "rollback-overarms-uncancelled",
+             "every state of the exit set is disarmed before the first exit action can fail, so the re-armed set equals the disarmed set" if upfront else
+             f"{xt.short} cancels each state's tasks just before that state's exit actions; when an exit action aborts the transition, the states "
+             f"later in the exit order were never disarmed, yet rollback re-arms the whole exit set: their after-timers and services run twice",
+             cancel_calls[0] if cancel_calls else xt.node)
